@@ -270,6 +270,74 @@ def judge(tree, acts, ts, method) -> Tuple[List[Dict[str, Any]], List[Tuple[Any,
     return vs, trans, nontrivial
 
 
+# ------------------------------------------------------------------ histories: one visitor, several walks, extensions registered in between
+
+def subsets() -> List[Tuple[str, ...]]:
+    out: List[Tuple[str, ...]] = []
+    for r in range(0, 5):
+        out.extend(itertools.combinations(TIMINGS, r))
+    return out
+
+
+def judge_history(tree: tuple, acts: Sequence[Optional[str]], stages: Sequence[Tuple[Sequence[str], str]]) -> Tuple[List[Dict[str, Any]], List[Any]]:
+    """stages = [(timings registered just before this walk, walk method)]: the SAME visitor object walks the same tree once per stage.
+    Oracle: every walk obeys the contract for all the extensions registered so far, in registration order."""
+    from pydoctor import visitor
+    root = build(tree, itertools.count())
+    allnodes = list(nodes(root))
+    for node, a in zip(allnodes, acts):
+        node.act = a
+    log: List[Tuple[str, str, str]] = []
+
+    class Main(visitor.Visitor):  # type: ignore
+        def unknown_visit(s, ob: N) -> None:
+            log.append(('main', '+', ob.name))
+            if ob.act:
+                raise getattr(s, ob.act)()
+
+        def unknown_departure(s, ob: N) -> None:
+            log.append(('main', '-', ob.name))
+
+        @classmethod
+        def get_children(cls, ob: N) -> List[N]:
+            return ob.ch
+
+    def mk(tag: str, w: str):
+        class E(visitor.VisitorExt):  # type: ignore
+            when = getattr(visitor.When, w)
+
+            def unknown_visit(s, ob: N) -> None:
+                log.append((tag, '+', ob.name))
+
+            def unknown_departure(s, ob: N) -> None:
+                log.append((tag, '-', ob.name))
+        return E
+    v = Main(visitor.ExtList())
+    tags: List[Tuple[str, str]] = []
+    vs: List[Dict[str, Any]] = []
+    outcomes = []
+    for k, (ts, method) in enumerate(stages):
+        for w in ts:
+            tag = f'{w}{len(tags)}'
+            tags.append((tag, w))
+            v.extensions.add(mk(tag, w))
+        del log[:]
+        exc = None
+        try:
+            getattr(v, method)(root)
+        except Exception as e:  # noqa
+            exc = type(e).__name__
+        ref = reference(root, tags, method == 'walkabout')
+        outcomes.append((k, len(log), exc))
+        if exc or log != ref:
+            late = [t for t, _ in tags[len(tags) - len(ts):]] if k else []
+            what = 'escaped:' + exc if exc else ('late-extension-events' if any(e[0] in late for e in set(log) ^ set(ref)) else 'differs-from-contract')
+            case = {'kind': 'history', 'tree': repr(tree), 'acts': list(acts), 'stages': [[list(t), m] for t, m in stages]}
+            vs.append(core.violation(f'history/walk{k + 1}:{method}/{what}', f'walk {k + 1} ({method}) of one visitor on tree {tree} acts {list(acts)} stages {stages}: events {log} vs contract {ref}'[:1500], case))
+            break
+    return vs, outcomes
+
+
 # ------------------------------------------------------------------ builder part
 
 COLLISION = ['def', 'class', 'assign', 'prop', 'overload', 'if-else', 'main', 'try', 'imp-star', 'doc-assign', 'all-odd', 'self-attr', 'base-cycle', 'defdef', 'ann']
@@ -350,6 +418,11 @@ def jobs(tier: str) -> Iterable[Tuple[str, Any]]:
                 else:
                     for a0 in range(len(ACTS)):
                         yield (f'walks:trees<={n}', ('walk', n, ti, method, a0))
+    for si, s1 in enumerate(subsets()):
+        yield ('histories:2-walks', ('history', si, 2))
+    if tier == 'thorough':
+        for si, s1 in enumerate(subsets()):
+            yield ('histories:3-walks', ('history', si, 3))
     names = sorted(alphabet.S)
     for i in range(0, len(names), 8):
         yield ('builder:singles', ('builder', names[i:i + 8]))
@@ -381,6 +454,25 @@ def run_job(job: Any, tier: str) -> Dict[str, Any]:
                         res['samples'].append({'tree': repr(t), 'actions': list(acts), 'timings': list(ts), 'method': method})
                 res['outcomes'].add(core.h(len(trans), bool(vs)))
         core.bump(res, 'walks', res['evals'])
+    elif job[0] == 'history':
+        _, si, depth = job
+        subs = subsets()
+        s1 = subs[si]
+        later = subs if depth == 2 else [x for x in subs if len(x) <= 1]
+        for n in range(1, 4 if depth == 2 else 3):
+            for t in trees(n):
+                for acts in itertools.product(ACTS, repeat=n):
+                    for rest in itertools.product(later, repeat=depth - 1):
+                        for methods in itertools.product(('walkabout', 'walk'), repeat=depth):
+                            stages = [(s1, methods[0])] + [(r, m) for r, m in zip(rest, methods[1:])]
+                            vs, outs = judge_history(t, acts, stages)
+                            res['evals'] += 1
+                            res['traces'] += len(outs)
+                            res['violations'] += vs
+                            if any(acts) and any(r for r in rest):
+                                res['nontrivial_count'] += 1
+                            res['outcomes'].add(core.h(outs))
+        core.bump(res, 'histories', res['evals'])
     elif job[0] == 'builder':
         for name in job[1]:
             for pl, fn in alphabet.PLACE.items():
@@ -411,6 +503,8 @@ def run_job(job: Any, tier: str) -> Dict[str, Any]:
 
 
 def replay(case: Dict[str, Any]) -> List[Dict[str, Any]]:
+    if case['kind'] == 'history':
+        return judge_history(eval(case['tree']), case['acts'], [(tuple(t), m) for t, m in case['stages']])[0]
     if case['kind'] == 'walk':
         vs, _, _ = judge(eval(case['tree']), case['acts'], case['timings'], case['method'])
         return vs
